@@ -101,8 +101,14 @@ func parseConf(t reflect.Type, data interface{}) (name string, fillConf func(con
 }
 
 func toStringKeyMap(data interface{}) (out map[string]interface{}, err error) {
-	out, ok := data.(map[string]interface{})
+	strKeyData, ok := data.(map[string]interface{})
 	if ok {
+		// Copy: caller removes plugin type key from the result, but the same data is decoded once
+		// per product of a factory (e.g. nested schedules of an rps-per-instance composite schedule).
+		out = make(map[string]interface{}, len(strKeyData))
+		for key, val := range strKeyData {
+			out[key] = val
+		}
 		return
 	}
 	untypedKeyData, ok := data.(map[interface{}]interface{})
